@@ -46,6 +46,8 @@ def rule_oracle(rl, st, tr):
         k = st['load0'] / m['tmax'] / eta_total(tr)
         if k < 0:
             return ('skip', 'negative static error (float * Angle raises ValueError)')
+        if rl.get('target_kind') == 'Angle' and target - brake <= 1e-9 * max(target, brake):
+            return ('skip', 'Angle target smaller than the braking angle: the braking start is not an Angle (ValueError)')
         start = target - brake + k * brake
         if abs(x - start) <= 1e-9 * max(sc, abs(start)):
             return ('skip', 'position within rounding of the braking start')
@@ -111,15 +113,18 @@ def gen_rules(rng, spec, horizon, n_el):
             continue
         enc = rng.randrange(n_el)
         target = gen.in_unit(rng, 'AngularPosition', rng.uniform(-2, 8), True)
+        tkind = {}
+        if target[0] >= 0 and rng.random() < 0.3:
+            tkind = {'target_kind': 'Angle'}        # targets may be Angles (the non-negative sub-kind)
         if t == 'reach':
-            rules.append({'type': 'reach', 'enc': enc, 'target': target, 'brake': gen.in_unit(rng, 'Angle', rng.uniform(0.2, 4), True)})
+            rules.append({'type': 'reach', 'enc': enc, 'target': target, 'brake': gen.in_unit(rng, 'Angle', rng.uniform(0.2, 4), True), **tkind})
         elif t == 'prop':
-            rules.append({'type': 'prop', 'enc': enc, 'target': target, 'mult': rng.uniform(1.1, 6), 'pmin': rng.choice([None, 0.1, 0.3])})
+            rules.append({'type': 'prop', 'enc': enc, 'target': target, 'mult': rng.uniform(1.1, 6), 'pmin': rng.choice([None, 0.1, 0.3]), **tkind})
         else:
             i0, imax = sif('Current', spec['motor']['i0']), sif('Current', spec['motor']['imax'])
             ilim = rng.uniform(i0 * 1.2 + 0.01, imax * 1.3) if rng.random() < 0.9 else rng.uniform(0.001, max(i0, 0.002))
             rules.append({'type': 'limit', 'enc': enc, 'tach': rng.choice([0, 0, rng.randrange(n_el)]), 'target': target,
-                          'ilim': gen.in_unit(rng, 'Current', ilim, True)})
+                          'ilim': gen.in_unit(rng, 'Current', ilim, True), **tkind})
     return rules
 
 
@@ -298,6 +303,11 @@ def run_controlled(ctx, props, quick=120, thorough=4000):
                 spec['ops'] = [op, op2]
             else:
                 spec['ops'] = [op, {'op': 'reset'}, {'op': 'init', 'pos': spec['init']['pos'], 'speed': spec['init']['speed']}, op2]
+                if rng.random() < 0.4:
+                    # the efficiency of a mating is declared again between the two simulations (the rules' static error and
+                    # minimum duty cycle use the efficiency of the chain as it is now)
+                    from harness import sim_props as _sp
+                    _sp.inject_redeclare(rng, spec, spec['ops'])
                 if other == 'same' and rng.random() < 0.6:
                     # the same timer-based rule objects before and after the reset: their windows restart with the time axis
                     rules = gen.const_rules(rng, total * dt, random_units=True)
